@@ -11,11 +11,12 @@
     the sequence with a registry invariant; not `decide`.
   * INSTANCE (finite quantifier: all emission call sites of the program, regenerated from /repo by
     harness/cmd/kbextract/metrics.go on every run): `metric_labels_consistent`, `metric_names_valid`,
-    `metric_sites_resolved`, `metric_dynamic_label_sites` by `decide`, and their combination
-    `metrics_never_panic_partial`.  The FULL statement `MetricsNeverPanic` is false on the current
-    tree: one site passes the key of a Watch request (arbitrary client bytes) as a label VALUE, and
-    the client panics on a value that is not valid UTF-8 — `metrics_panic_witness`; finding
-    "metric-label-value-not-utf8" in known_findings.json, reproduced by `bin/check C20`.
+    `metric_sites_resolved`, `metric_dynamic_label_sites`, `metric_sanitised_label_sites` by `decide`,
+    and their combination `metrics_never_panic`: NO data a client can send reaches a label value
+    unsanitised (the Watch key is passed through strings.ToValidUTF8 since 9c4361e — before that a
+    Watch with a non-UTF-8 key killed the node); the only run-time label values left are the leader
+    address at seven sites of the election / follower code, which is operator data (see
+    `metric_dynamic_label_sites`) and appears as the one explicit hypothesis `LeaderAddressValid`.
   Trusted: the extractor's syntactic resolution of names / labels (fail closed: anything it cannot
   resolve is in `metricSitesUnresolved`, required to be empty), the reading of client_golang v1.12.1
   in KB/Metrics.lean, and that the program's emissions are exactly the calls of the table
@@ -164,20 +165,24 @@ theorem metric_site_labels_nodup : ∀ s ∈ metricSites, s.labelNames.Nodup ∧
   simp only [Bool.and_eq_true, decide_eq_true_eq, List.all_eq_true] at this
   exact ⟨this.1, this.2⟩
 
-/-- the sites that pass run-time data as a label value: (file, metric name, dynamic labels) -/
+/-- the sites that pass UNSANITISED run-time data as a label value: (file, metric name, dynamic labels) -/
 def dynamicSites (sites : List Site) : List (String × Name × List Name) :=
   (sites.filter (fun s => !s.dynamicLabels.isEmpty)).map (fun s => (s.file, s.name, s.dynamicLabels))
 
-/-- Exactly these sites pass run-time data as a label value (finite quantifier: the regenerated table).
-* `watcherhub.events_chan.closed{prefix}`: the key of a Watch request, i.e. ARBITRARY CLIENT BYTES
-  (pkg/server/etcd/watch.go:297, pkg/server/brain/watch.go:43 → backend.Watch → processEvents) — the C20
-  defect witnessed below;
-* the `addr` / `leader` labels: the leader address parsed from the election record
-  (resourcelock.Describe(), written by the peers from their `Identity` configuration) — operator data,
-  assumed valid UTF-8 (stated in `metrics_never_panic_partial`). -/
+/-- the sites that pass run-time data through strings.ToValidUTF8 -/
+def sanitisedSites (sites : List Site) : List (String × Name × List Name) :=
+  (sites.filter (fun s => !s.sanitisedLabels.isEmpty)).map (fun s => (s.file, s.name, s.sanitisedLabels))
+
+/-- TABLE-CHECKED FACT (finite quantifier: the regenerated table): exactly these seven sites pass unsanitised
+run-time data as a label value, and in all of them it is the LEADER ADDRESS:
+`leaderAddr, version, _ := l.getLeaderAndVersion()` = the election record's `HolderIdentity` as rendered by
+`resourceLock.Describe()` (pkg/backend/election). Why this is not client-controlled: the record is the value
+of the raw storage key `<prefix>/election`, written only by `resourceLock.Create/Update` with the peers'
+own `Identity` configuration (host:port from the command line); every key a client can write through either
+API is stored under the coder's magic prefix `57 fb 80 8b …` (C10), so no request can write that key.
+It is therefore operator data; its validity is the hypothesis `LeaderAddressValid` below. -/
 theorem metric_dynamic_label_sites : dynamicSites metricSites =
-    [ ("pkg/backend/watch.go", b!"watcherhub.events_chan.closed", [b!"prefix"]),
-      ("pkg/server/service/leader/leader.go", b!"leader.election.initial.version", [b!"addr"]),
+    [ ("pkg/server/service/leader/leader.go", b!"leader.election.initial.version", [b!"addr"]),
       ("pkg/server/service/leader/leader.go", b!"leader.election.lost", [b!"addr"]),
       ("pkg/server/service/revision/revision.go", b!"follower.getleader", [b!"leader"]),
       ("pkg/server/service/revision/revision.go", b!"member.round_trip", [b!"leader"]),
@@ -186,57 +191,71 @@ theorem metric_dynamic_label_sites : dynamicSites metricSites =
       ("pkg/server/service/revision/revision.go", b!"follower.get.revision", [b!"leader"]) ] := by
   decide +kernel
 
-/-- THE FULL STATEMENT of C20's metrics part: whatever the requests and background loops do — for ANY
-sequence of executions of emission call sites of the program, with arbitrary run-time label data — the
-production metrics client does not panic.  FALSE on the current tree (`metrics_panic_witness`). -/
-def MetricsNeverPanic : Prop :=
-  ∀ g ∈ metricGlobalLabels, ∀ seq : List Emission, (∀ e ∈ seq, Admissible metricSites e) →
-    (run g Registry.empty seq).isSome = true
+/-- TABLE-CHECKED FACT: the one label that carries client bytes — the key of a Watch request, label `prefix`
+of `watcherhub.events_chan.closed` (pkg/backend/watch.go) — is sanitised. -/
+theorem metric_sanitised_label_sites : sanitisedSites metricSites =
+    [ ("pkg/backend/watch.go", b!"watcherhub.events_chan.closed", [b!"prefix"]) ] := by
+  decide +kernel
 
-/-- PARTIAL (what holds on the current tree): provided the run-time label data (watch key prefix, leader
-address) are valid UTF-8, no sequence of emissions panics.  Names, kinds and label-name sets need no
-assumption at all. -/
-theorem metrics_never_panic_partial (g : List Name) (hg : g ∈ metricGlobalLabels)
-    (seq : List Emission) (hs : ∀ e ∈ seq, Admissible metricSites e)
-    (hdyn : ∀ e ∈ seq, e.site.dynamicLabels ≠ [] → e.valuesValid = true) :
+/-- every site outside pkg/server/service/{leader,revision} has only static or sanitised label values -/
+theorem metric_request_paths_static : ∀ s ∈ metricSites,
+    s.file ≠ "pkg/server/service/leader/leader.go" → s.file ≠ "pkg/server/service/revision/revision.go" →
+    s.dynamicLabels = [] := by
+  have h : (metricSites.all fun s => s.file == "pkg/server/service/leader/leader.go" ||
+      s.file == "pkg/server/service/revision/revision.go" || s.dynamicLabels.isEmpty) = true := by decide +kernel
+  intro s hs h1 h2
+  have := List.all_eq_true.mp h s hs
+  simp only [Bool.or_eq_true, beq_iff_eq, List.isEmpty_iff] at this
+  rcases this with (h' | h') | h'
+  · exact absurd h' h1
+  · exact absurd h' h2
+  · exact h'
+
+/-- THE ENVIRONMENT HYPOTHESIS of C20's metrics part: wherever an emission carries the leader address (the
+only unsanitised run-time label value, by `metric_dynamic_label_sites`), it is valid UTF-8. -/
+def LeaderAddressValid (seq : List Emission) : Prop :=
+  ∀ e ∈ seq, e.site.dynamicLabels ≠ [] → e.valuesValid = true
+
+/-- C20 (metrics part): whatever the requests and the background loops do — for ANY sequence of executions of
+emission call sites of the program, with ARBITRARY client data — the production metrics client does not
+panic, given only that the leader address is valid UTF-8. -/
+theorem metrics_never_panic (g : List Name) (hg : g ∈ metricGlobalLabels)
+    (seq : List Emission) (hs : ∀ e ∈ seq, Admissible metricSites e) (hleader : LeaderAddressValid seq) :
     (run g Registry.empty seq).isSome = true := by
   refine consistent_no_panic g metricSites metric_labels_consistent (metric_names_valid g hg) seq ?_
   intro e he
   refine ⟨(hs e he).1, ?_⟩
   by_cases h : e.site.dynamicLabels = []
   · exact (hs e he).2 h
-  · exact hdyn e he h
+  · exact hleader e he h
 
-/-- the offending site: the Watch key is passed verbatim as the value of label `prefix` -/
-def watchPrefixSite : Option Site :=
-  metricSites.find? (fun s => s.name == b!"watcherhub.events_chan.closed")
+/-- … and with NO hypothesis for every execution that does not pass through the seven leader-address sites
+(all request handlers of a node that is leader, the backend, the storage wrapper, the retry loop, the scanner). -/
+theorem metrics_never_panic_request_paths (g : List Name) (hg : g ∈ metricGlobalLabels)
+    (seq : List Emission) (hs : ∀ e ∈ seq, Admissible metricSites e)
+    (hpath : ∀ e ∈ seq, e.site.file ≠ "pkg/server/service/leader/leader.go" ∧
+      e.site.file ≠ "pkg/server/service/revision/revision.go") :
+    (run g Registry.empty seq).isSome = true :=
+  metrics_never_panic g hg seq hs (fun e he hne =>
+    absurd (metric_request_paths_static e.site (hs e he).1 (hpath e he).1 (hpath e he).2) hne)
 
-/-- WITNESS of the negation: one admissible emission (the end of a Watch whose key is not valid UTF-8)
-makes the client panic — in a goroutine of the backend, i.e. the node dies. -/
-theorem metrics_panic_witness : ¬ MetricsNeverPanic := by
-  intro h
-  have hsite : ∃ s, watchPrefixSite = some s ∧ s ∈ metricSites ∧ s.dynamicLabels ≠ [] := by
-    have hsome : watchPrefixSite.isSome = true := by decide +kernel
-    obtain ⟨s, hs⟩ := Option.isSome_iff_exists.mp hsome
-    refine ⟨s, hs, List.mem_of_find?_eq_some hs, ?_⟩
-    have : (watchPrefixSite.all fun s => !s.dynamicLabels.isEmpty) = true := by decide +kernel
-    rw [hs] at this
-    intro hnil
-    simp [Option.all, hnil] at this
-  obtain ⟨s, _, hmem, hdyn⟩ := hsite
-  have hg : [b!"cluster"] ∈ metricGlobalLabels := by decide +kernel
-  have := h _ hg [⟨s, false⟩] (by
-    intro e he
-    simp only [List.mem_singleton] at he
-    subst he
-    exact ⟨hmem, fun hnil => absurd hnil hdyn⟩)
-  simp [run, emit] at this
+/-- The hypothesis `LeaderAddressValid` cannot be dropped IN THE MODEL: an emission at a leader-address site
+with an invalid value panics (this is what the real client does; whether such a value can occur is outside
+the model — see `metric_dynamic_label_sites`). -/
+theorem leader_address_hypothesis_needed :
+    ∃ s ∈ metricSites, s.dynamicLabels ≠ [] ∧ run [b!"cluster"] Registry.empty [⟨s, false⟩] = none := by
+  have hsome : (metricSites.find? (fun s => !s.dynamicLabels.isEmpty)).isSome = true := by decide +kernel
+  obtain ⟨s, hs⟩ := Option.isSome_iff_exists.mp hsome
+  refine ⟨s, List.mem_of_find?_eq_some hs, ?_, by simp [run, emit]⟩
+  have := List.find?_some hs
+  intro hnil
+  simp [hnil] at this
 
 /-! ### hypotheses are satisfiable / the predicate is not vacuous -/
 
-private def exA : Site := ⟨"a.go", 1, .counter, b!"x.y", [b!"m"], [], false, "direct", ""⟩
-private def exB : Site := ⟨"b.go", 2, .counter, b!"x.y", [b!"m", b!"n"], [], false, "direct", ""⟩
-private def exC : Site := ⟨"c.go", 3, .gauge, b!"x_y", [b!"m"], [], false, "direct", ""⟩
+private def exA : Site := ⟨"a.go", 1, .counter, b!"x.y", [b!"m"], [], [], false, "direct", ""⟩
+private def exB : Site := ⟨"b.go", 2, .counter, b!"x.y", [b!"m", b!"n"], [], [], false, "direct", ""⟩
+private def exC : Site := ⟨"c.go", 3, .gauge, b!"x_y", [b!"m"], [], [], false, "direct", ""⟩
 private def ok (s : Site) : Emission := ⟨s, true⟩
 
 example : consistentB [exA, exA] = true ∧ WellNamed [b!"cluster"] [exA, exA] := by
